@@ -315,6 +315,9 @@ def gen_deck(rng, n_like=None, imp_decrease=False, allow_void_mat=False):
         r = resolve({x['id']: x for x in cells}, c['id'])
         if r['mat']:
             used.add(r['mat'])
+    for c in cells:
+        if c.get('like') is None and rng.random() < 0.15:
+            c['upper'] = True
     deck = {'title': 'C15 generated deck', 'cells': cells,
             'surfaces': surfaces, 'transforms': trs,
             'materials': {m: MATERIALS[m] for m in sorted(used)},
@@ -337,6 +340,8 @@ def resolve(by_id, cid, depth=0):
     base.pop('like', None)
     base.pop('but', None)
     base.pop('style', None)
+    base.pop('upper', None)
+    base.pop('text', None)
     return base
 
 
@@ -522,6 +527,14 @@ def render(deck, rng=None):
         elif cell.get('like') is not None:
             out.append(deckmod.wrap(cell.get('text')
                                     or deckmod.cell_text(cell)))
+        elif cell.get('upper'):
+            # explicit card with its options in capitals
+            opts = deckmod.cell_options(cell)
+            plain = dict(cell)
+            for key in ('u', 'lat', 'fill', 'trcl', 'imp'):
+                plain.pop(key, None)
+            out.append(deckmod.wrap(' '.join(
+                [deckmod.cell_text(plain)] + [o.upper() for o in opts])))
         else:
             out.append(deckmod.wrap(cell.get('text')
                                     or deckmod.cell_text(cell)))
